@@ -156,6 +156,19 @@ V_PathParse(e) ==            \* e.inp = str; e.res.v = [list, str, private]
           ELSE IF NTok(e.inp) > 5 /\ e.res.v.list = TailIgnoredList(e.inp) THEN "deep-tail-ignored"
           ELSE "parse-accepted-" \o p.why
 
+\* growth: the path predicates that select versions and networks (e.inp = str; e.res.v = record of predicates)
+V_PathProps(e) ==
+  LET p == Parse(e.inp)
+  IN IF p.kind # "ok" \/ Len(p.list) > 5 THEN "ok"
+     ELSE IF Raised(e) THEN "pathprops-raised-on-valid"
+     ELSE LET w == PathProps(p.list)  g == e.res.v
+          IN IF g.bip44 # w.bip44 \/ g.bip49 # w.bip49 \/ g.bip84 # w.bip84 THEN "pathprops-purpose"
+             ELSE IF g.mainnet # w.mainnet \/ g.testnet # w.testnet THEN "pathprops-coin"
+             ELSE IF g.external # w.external THEN "pathprops-chain"
+             ELSE IF g.bip # w.bip THEN "pathprops-bip"
+             ELSE IF g.mark # (IF p.private THEN <<109>> ELSE <<77>>) THEN "pathprops-root-mark"
+             ELSE "ok"
+
 V_ByPath(e) ==               \* e.inp = [path, wallet]; e.res.v = [node, repr]
   LET p == Parse(e.inp.path)
   IN IF p.kind = "either"
@@ -227,6 +240,7 @@ Verdict(e) ==
     [] e.act = "SegwitDec" -> V_SegwitDec(e)
     [] e.act = "PathParse" -> V_PathParse(e)
     [] e.act = "ByPath" -> V_ByPath(e)
+    [] e.act = "PathProps" -> V_PathProps(e)
     [] e.act = "MerkleLevel" -> V_MerkleLevel(e)
     [] e.act = "MerkleRoot" -> V_MerkleRoot(e)
     [] e.act = "ScriptAdd" -> V_ScriptAdd(e)
